@@ -386,10 +386,12 @@ def nic_stubs(state):
         # the kernel fills the request union at offset 16 of struct ifreq; flags are pinned (the 17 flag tests would fork 2^17
         # ways on a symbolic word, which has nothing to do with the name copy checked here)
         if isinstance(ifr, cir.Ptr) and ifr.obj is not None and st.objs[ifr.obj].size >= 20:
+            st.log.append(("ifr_name", [I.byte_at(st, ifr.obj, ifr.off + i) for i in range(16)]))      # what the kernel is asked about
             I.store(st, cir.Ptr(ifr.obj, ifr.off + 16), 2, z3.BitVecVal(0x1043, 16))
         return z3.BitVec(f"ioctl{len(st.log)}", 32)
 
     return {"@PyArg_ParseTuple": parse_stub(state), "@strncpy": strncpy, "@socket": sym32("sock"), "@ioctl": ioctl, "@close": sym32("close"), "@Py_BuildValue": build,
+            "@llvm.memset.p0i8.i64": lambda I, st, w, c, *a: _memset(I, st, w, c, *a),
             "@PyErr_SetFromErrno": lambda *a: cir.NULL, "@psutil_PyErr_SetFromOSErrnoWithSyscall": lambda *a: cir.NULL, "@PyList_New": lambda I, st, w, c, n: cir.newobj(I, st, "list"),
             "@append_flag": lambda I, st, w, c, *a: z3.BitVec(f"append{len(st.log)}", 32) if st.log.append(("append",)) is None else None, "@_Py_Dealloc": cir.nop, "@Py_XDECREF": cir.nop}
 
@@ -413,6 +415,18 @@ def nic_name_c(ctx, fn, n):
     state = {"strings": [mkstr]}
     I = cir.Interp(mod, nic_stubs(state))
     res = I.run("@" + fn, [cir.NULL, cir.NULL])
+    # fidelity: the name the kernel is asked about is the interface's name (interface names are at most IFNAMSIZ-1 = 15 bytes long;
+    # longer strings cannot name an interface and only have to be copied safely)
+    ok_name, bad_st = True, None
+    if n <= 15:
+        for st, ret in res:
+            for ent in [x for x in st.log if x[0] == "ifr_name"]:
+                want = [z3.BitVec(f"c{i}", 8) if ctx.symbolic else z3.BitVecVal(chars[i], 8) for i in range(n)] + [z3.BitVecVal(0, 8)]
+                if not I.oblige(st, z3.And(*[ent[1][i] == want[i] for i in range(n + 1)]), "nic-name: the name handed to the kernel in ifr_name is not the interface name"):
+                    ok_name, bad_st = False, st
+    fid = [f for f in I.findings if f[0].startswith("nic-name:")]
+    ctx.external("nic-name-passed-on", ok_name, model_assignment(fid[0][1], "c", n) if fid else {}, detail=fid[0][0] if fid else "")
+    I.findings = [f for f in I.findings if f not in fid]
     report(ctx, I, ["memory-in-bounds", "strncpy-in-bounds"], lambda m: model_assignment(m, "c", n))
     ctx.external("nic-paths-completed", bool(res))
 
